@@ -8,8 +8,10 @@
      hdr      = [0; enabled; init; rf_num; rf_den; mult_num; mult_den; max_interval; max_elapsed;
                  timeout; signal; deadline; cancel_at; stop_at; 0]
      payload  = item ids of the request
-     script   = [(dur, layers)] ; layers outermost first: (0,[]) permanent, (1,[d]) throttle,
-                (2, sig :: rem) partial, (3,[]) shutdown error, (4,[]) fmt wrap ; (9,[]) alone = success
+     script   = [(dur, tokens)] ; the error tree in prefix form: (0,[]) permanent, (1,[d]) throttle,
+                (2, sig :: rem) partial, (3,[]) shutdown error, (4,[]) fmt wrap — each followed by what it
+                wraps; (5,[n]) a combination followed by its n members; (6,[]) the base error (may be
+                omitted at the very end) ; (9,[]) alone = success
      attempts = observed calls of the exporter function: (item ids, deadline class)
                 class 0 none, 1 = the caller's deadline, 2 = start + timeout
      delays   = the back-off delays logged by retrySender ("interval"), in order
@@ -37,11 +39,53 @@ Definition layer_of (p : Z * list Z) : layer :=
   else if code =? 3 then LShutdown
   else LWrap.
 
+(* an error tree in prefix form: a wrapper token is followed by the error it wraps, (5,[n]) by its n
+   members, (6,[]) is the base error; a missing tail is the base error (so a plain chain needs none) *)
+Fixpoint parse_members (p : list (Z * list Z) -> option (err * list (Z * list Z))) (n : nat) (ts : list (Z * list Z))
+  : option (list err * list (Z * list Z)) :=
+  match n with
+  | O => Some ([], ts)
+  | S m => match p ts with
+           | Some (e, r) => match parse_members p m r with
+                            | Some (es, r') => Some (e :: es, r')
+                            | None => None
+                            end
+           | None => None
+           end
+  end.
+
+Fixpoint parse_err (fuel : nat) (ts : list (Z * list Z)) : option (err * list (Z * list Z)) :=
+  match fuel with
+  | O => None
+  | S f =>
+    match ts with
+    | [] => Some (EBase, [])
+    | (code, args) :: r =>
+      if code =? 6 then Some (EBase, r)
+      else if code =? 5 then
+        match parse_members (parse_err f) (Z.to_nat (nth 0%nat args 0)) r with
+        | Some (es, r') => Some (EJoin es, r')
+        | None => None
+        end
+      else match parse_err f r with
+           | Some (e, r') => Some (EWrap (layer_of (code, args)) e, r')
+           | None => None
+           end
+    end
+  end.
+
+(* a malformed token list (never produced by the harness) becomes an error that cannot match *)
+Definition err_of (ts : list (Z * list Z)) : err :=
+  match parse_err (S (List.length ts)) ts with
+  | Some (e, []) => e
+  | _ => EJoin [EJoin []; EJoin []; EJoin []]
+  end.
+
 Definition attempt_of (p : Z * list (Z * list Z)) : attempt :=
   let '(dur, ls) := p in
   match ls with
   | [(9, _)] => {| a_dur := dur; a_res := ROk |}
-  | _ => {| a_dur := dur; a_res := RErr (map layer_of ls) |}
+  | _ => {| a_dur := dur; a_res := RErr (err_of ls) |}
   end.
 
 Definition config_of (h : list Z) : config :=
